@@ -157,6 +157,14 @@ def cmp_cells(n):
             c = list(base)
             c[j] += dlt
             out.append(c)
+    if n >= 2:
+        # two differences in opposite directions (the first one decides, not the last) and a transposition
+        for a, b in ((1, -1), (-1, 1)):
+            c = list(base)
+            c[0] += a
+            c[-1] += b
+            out.append(c)
+        out.append([base[-1]] + base[1:-1] + [base[0]])
     return out
 
 
@@ -327,10 +335,17 @@ def batches(rng, tier):
             for b in ds:
                 for cb in cmp_cells(count([0] * n, b)):
                     ops.append(f"cmp {L(a)} {L(ca) if ca else '-'} {L(b)} {L(cb) if cb else '-'}")
+    # equal sizes: every pair of cell lists over a small alphabet
+    for d in ([2], [3], [2, 1], [1, 2], [3, 1], [1, 3], [2, 2], [1, 2, 1], [2, 1, 2]):
+        n = count([0] * len(d), d)
+        alpha = [0, 1, 2] if n <= 3 else [0, 1]
+        lists = [list(t) for t in itertools.product(alpha, repeat=n)]
+        ops += [f"cmp {L(d)} {L(x)} {L(d)} {L(y)}" for x in lists for y in lists]
     yield Batch("comparison-all-size-pairs", ops, exhaustive=True,
                 note="== != < > <= >= for every pair of sizes (N=1: extents 0..4, N=2: 0..3, N=3: 0..2), second operand's cells equal to "
-                     "1..n or differing by +-1 at the first / middle / last cell: same flattened cells with different shape, empty grids of "
-                     "different sizes, one cell list a prefix of the other")
+                     "1..n or differing by +-1 at the first / middle / last cell, at the first and the last in opposite directions, or "
+                     "first and last exchanged: same flattened cells with different shape, empty grids of different sizes, one cell list a prefix of the "
+                     "other; for nine equal-size shapes with <= 4 cells every pair of cell lists over {0,1,2} ({0,1} for 4 cells)")
 
     # ---- larger sizes, sampled
     r = rng.fork("large")
